@@ -229,15 +229,15 @@ class Duration:
             rest = 1
 
         if scale % 1000_000_000 == 0:
-            amount = scale / 1000_000_000
+            amount = scale // 1000_000_000 if isinstance(scale, int) else scale / 1000_000_000
             unit = 'millis'
             suffix = 'ms'
         elif scale % 1000_000 == 0:
-            amount = scale / 1000_000
+            amount = scale // 1000_000 if isinstance(scale, int) else scale / 1000_000
             unit = 'micros'
             suffix = 'us'
         elif scale % 1000 == 0:
-            amount = scale / 1000
+            amount = scale // 1000 if isinstance(scale, int) else scale / 1000
             unit = 'nanos'
             suffix = 'ns'
         else:
